@@ -253,6 +253,7 @@ class Explorer:
             l = p["l"]
             val = None
             env.pop(("v", l), None)
+            env[("d", l)] = r
             if r[0] == "use":
                 o = r[1]
                 if o[0] == "const":
@@ -282,7 +283,7 @@ class Explorer:
         # record writes that are observable: through a deref, to a field of an argument, or to _0
         observable = any(x[0] == "deref" for x in p["p"]) or (1 <= p["l"] <= self.b.argc and p["p"]) or (self.b.local_name(p["l"]) is not None and p["p"])
         if observable and not is_noise(s["x"]):
-            ev.append(("write", place_str(p), r, s["sp"], self._place_key(p)))
+            ev.append(("write", place_str(p), r, s["sp"], self._place_key(p), self._classify(r, env, bi)))
 
     def _ret(self, env, blocks):
         """classify the returned value by the last definition of _0 on this path"""
@@ -307,6 +308,19 @@ class Explorer:
                 return ("const", env[o[1]["l"]])
             if not o[1]["p"] and ("v", o[1]["l"]) in env:
                 return self._classify(env[("v", o[1]["l"])][2], env, bi)
+            if o[1]["p"] and len(o[1]["p"]) == 1 and o[1]["p"][0][0] == "field" and ("d", o[1]["l"]) in env and _depth(env) < 12:
+                rr = env[("d", o[1]["l"])]
+                if rr[0] == "bin" and rr[1].endswith("WithOverflow") and o[1]["p"][0][1] == 0:
+                    env2 = dict(env)
+                    env2["__depth"] = _depth(env) + 1
+                    return self._classify(["bin", rr[1].replace("WithOverflow", ""), rr[2], rr[3]], env2, bi)
+            if o[1]["p"]:
+                return ("place", self._place_key(o[1]))
+            if not o[1]["p"] and ("d", o[1]["l"]) in env and _depth(env) < 12:
+                env2 = dict(env)
+                env2["__depth"] = _depth(env) + 1
+                rr = env2.pop(("d", o[1]["l"]))
+                return self._classify(rr, env2, bi)
             # look through to the defining rvalue if unique
             ds = b.defs().get(o[1]["l"], [])
             if len(ds) == 1 and ds[0][2] == "assign" and not o[1]["p"]:
@@ -333,9 +347,15 @@ class Explorer:
             return ("variant", r[1][2], inner)
         if r[0] == "agg":
             return ("agg", r[1][0], tuple(self._classify(["use", o], env, bi) for o in r[2]))
-        if r[0] in ("bin", "un"):
-            return ("expr", r[1])
+        if r[0] == "bin":
+            return ("expr", r[1], self._classify(["use", r[2]], env, bi), self._classify(["use", r[3]], env, bi))
+        if r[0] == "un":
+            return ("expr", r[1], self._classify(["use", r[2]], env, bi))
         return (r[0],)
+
+
+def _depth(env):
+    return env.get("__depth", 0)
 
 
 def explore(body, **kw):
@@ -367,3 +387,40 @@ def _fmt_key(k):
     if k[0] == "not":
         return "!%s" % _fmt_key(k[1])
     return str(k)
+
+
+def short(v):
+    """compact, position-free rendering of a classified value"""
+    if v is None:
+        return "-"
+    k = v[0]
+    if k == "const":
+        return str(v[1])
+    if k == "variant":
+        return v[1] + ("(" + short(v[2]) + ")" if v[2] is not None else "")
+    if k == "expr":
+        return "%s(%s)" % (v[1], ",".join(short(x) for x in v[2:]))
+    if k == "place":
+        return "place:" + v[1].split("::")[-1] if "::" in v[1] and "." in v[1].split("::")[-1] else "place:" + v[1]
+    if k == "call":
+        return "call:%s" % v[1]
+    if k == "value":
+        return "value:" + str(v[1])
+    if k == "agg":
+        return "(" + ",".join(short(x) for x in v[2]) + ")"
+    return str(k)
+
+
+def writes(path, field=None):
+    """[(field name, short value)] of observable writes on a path"""
+    out = []
+    for e in path.events:
+        if e[0] == "write":
+            fld = e[4].split(".")[-1]
+            if field is None or fld == field:
+                out.append((fld, short(e[5])))
+    return out
+
+
+def calls(path):
+    return [e[1] for e in path.events if e[0] == "call"]
